@@ -73,11 +73,11 @@ theorem c12_flattened_independent (h : Heap) (d : Nat) (hb : (h.cont d).bundles.
       rw [s2.mgr c (Nat.lt_of_lt_of_le hc s1.size), s1.mgr c hc]
     exact ⟨hne, c12_noninterference h2 n1 c ms (Ne.symm hne) (by rw [hmn, hmc]; exact Nat.ne_of_lt (hwf c hc))⟩
 
-theorem stableMgr_of_frame {h h' : Heap} (f : ∀ nc, FrameB nc 0 h h') : StableMgr h h' :=
-  ⟨(f 0).csize, fun c _ => by rw [(f (c + 1)).conts c (Nat.lt_succ_self c)]⟩
+theorem stableMgr_of_frame {h h' : Heap} (f : ∀ nc, nc ≤ h.conts.size → FrameB nc 0 h h') : StableMgr h h' :=
+  ⟨(f 0 (Nat.zero_le _)).csize, fun c hc => by rw [(f (c + 1) hc).conts c (Nat.lt_succ_self c)]⟩
 
 theorem stableMgr_unifiedRecords (h : Heap) (c : Nat) : StableMgr h (h.unifiedRecords c).1 :=
-  stableMgr_of_frame (fun nc => frameB_unifiedRecords nc 0 h c (Nat.zero_le _))
+  stableMgr_of_frame (fun nc hnc => frameB_unifiedRecords nc 0 h c hnc (Nat.zero_le _))
 
 theorem stableMgr_setCont (h : Heap) (c : Nat) (k : Cont) (hk : k.mgr = (h.cont c).mgr) : StableMgr h (h.setCont c k) := by
   refine ⟨by simp [setCont], fun c' hc' => ?_⟩
